@@ -43,7 +43,31 @@ def rules(ctx, prog, rid=None):
         if n.k == 'DeclStmt':
             for d, init in n.r['decls']:
                 locs[f.tu.decls[d]['n']] = (d, f.node(init) if init >= 0 else None)
-    ctx.need({'elen', 'eeii', 'ii'} <= set(locs), 'calc_chksum: word-parallel branch locals (elen, eeii, ii) not found — other configuration?')
+    # the locals are identified by their ROLE, not by their names: ii = induction variable of the two loops, eeii = bound of the word loop,
+    # elen = bound of the byte (tail) loop, OVERFLOW_MASK = the constant the carry extraction masks with
+    fors0 = [n for n in f.all_nodes() if n.k == 'ForStmt']
+    ctx.need(len(fors0) == 2, 'calc_chksum: expected word loop + tail loop (two for statements)')
+    def cond_pair(loop):
+        c_ = loop.child('cond').strip(casts=True) if loop.child('cond') is not None else None
+        if c_ is None or c_.k != 'BinaryOperator' or c_.op != '<':
+            return None
+        l_, r_ = c_.children[0].strip(casts=True), c_.children[1].strip(casts=True)
+        if l_.k == 'DeclRefExpr' and r_.k == 'DeclRefExpr':
+            return l_.declid, r_.declid
+        return None
+    cp1, cp2 = cond_pair(fors0[0]), cond_pair(fors0[1])
+    ctx.need(cp1 is not None and cp2 is not None and cp1[0] == cp2[0], 'calc_chksum: the two loops do not share one induction variable compared with `<` against a local bound')
+    by_id = {d: (d, init) for (d, init) in locs.values()}
+    locs['ii'], locs['eeii'], locs['elen'] = by_id.get(cp1[0]), by_id.get(cp1[1]), by_id.get(cp2[1])
+    ctx.need(all(locs.get(k) is not None for k in ('ii', 'eeii', 'elen')), 'calc_chksum: loop variable / bounds are not locals of the function')
+    if 'OVERFLOW_MASK' not in locs:
+        for nm, (d, init) in list(locs.items()):
+            if init is not None and nm not in ('ii', 'eeii', 'elen'):
+                v_ = init.strip(casts=True).value
+                if v_ is None:
+                    v_ = f.tu.decls[d].get('cv')
+                if isinstance(v_, int) and v_ > 0xff and v_ & 0xff == 0 and all(((v_ >> (8 * j)) & 0xff) in (0, 1) for j in range(8)):
+                    locs['OVERFLOW_MASK'] = (d, init)
     # from += offset
     adv = [n for (n, kind, val) in q.local_defs(f, pfrom) if kind == 'opassign' and val is not None and q.refers_to_decl(val, poff)]
     ctx.check(len(adv) == 1, R('R07.1'), M + 'calc_chksum#start', f.loc, 'scan starts at from + offset')
